@@ -38,6 +38,18 @@ theorem orderCompare_numbers (E : Env) (a b : Value) (ha : isNum a = true) (hb :
     simp only [orderCompare, orderCompareNonNull, Option.getD, Spec.numOrder, Spec.numVal] <;>
     simp only [numF] at h <;> rw [h] <;> rfl
 
+/-- the rank table regenerated from `value_order_rank` IS the openCypher orderability of kinds … -/
+theorem rank_is_spec_rank (v : Value) : rank v = Spec.typeRank v := by cases v <;> rfl
+
+/-- … and values of different kinds are ordered by it, whatever their payloads (all values, every `E`) -/
+theorem cross_kind_order (E : Env) (a b : Value) (h : Spec.typeRank a < Spec.typeRank b) :
+    orderCompare E a b = .lt := by
+  rw [← rank_is_spec_rank, ← rank_is_spec_rank] at h
+  have hne : rank a ≠ rank b := by omega
+  have := ocnn_of_rank_ne E a b hne
+  rw [cmpNat_lt.2 h] at this
+  cases a <;> cases b <;> first | (simp only [orderCompare, this, Option.getD]; done) | rfl | (exfalso; revert h; simp [rank, Generated.rankNull, Generated.rankBool, Generated.rankInt, Generated.rankFloat, Generated.rankString, Generated.rankList, Generated.rankMap, Generated.rankNodeId, Generated.rankExternalId, Generated.rankEdgeKey, Generated.rankDateTime, Generated.rankBlob, Generated.rankPath]; done)
+
 /-- the composed comparator of an ORDER BY with several ASC/DESC items is a total preorder on rows whose
     keys come from a set of values outside the triggers -/
 theorem keyCompare_totalPreorder_partial (E : Env) (vs : List Value) (h : ordOK E vs = true) (dirs : List Dir) :
